@@ -337,12 +337,19 @@ func overlay(a, b *V, te string) (*V, bool) {
 		}
 		return out, true
 	case "ptr":
+		if a.Nil || b.Nil || a.P == nil || b.P == nil {
+			// typed nil pointers (held by an interface slot): only equal ones combine
+			return a, a.String() == b.String()
+		}
 		m, ok := overlay(a.P, b.P, a.T)
 		if !ok {
 			return nil, false
 		}
 		return vPtr(a.T, m), true
 	case "map":
+		if a.Nil || b.Nil {
+			return a, a.String() == b.String()
+		}
 		out := vMap(a.T)
 		out.IK = a.IK
 		for k, e := range a.F {
